@@ -53,7 +53,12 @@ def main():
     decks = decks + moved
     core.lap('generator')
     recs, verdicts, nd, meta = common_univ.run(
-        chk, decks, 'owner,bc', chk.seed, lambda d, r: [[], ['--skip-deduplication']], npts=40, lo=-9, hi=9)
+        chk, decks, 'owner,bc', chk.seed, lambda d, r: [[], ['--skip-deduplication'],
+                                                   # the other blocks left out: the boundary conditions are still due
+                                                   r.choice([['--skip-geomcomp'], ['--skip-compositions'],
+                                                             ['--skip-geomcomp', '--skip-deduplication'],
+                                                             ['--skip-compositions', '--skip-geomcomp']])],
+        npts=40, lo=-9, hi=9)
     chk.cov['traces_validated_against_impl'] = len(verdicts)
     chk.cov['evaluations'] = len(verdicts)
     nt = 0
